@@ -10,6 +10,7 @@ import Blue.Proofs.NextCompactionMain
 import Blue.Proofs.ConstsTieC01
 import Blue.Proofs.ApplyCompaction
 import Blue.Proofs.StoreHistRefine
+import Blue.Proofs.StoreHistTree
 /-! # Property C01 — point reads return the latest write, whatever the tree did in between
 
 Property theorems only.  The store is modelled as the list of its components in *search order*
@@ -72,7 +73,8 @@ remain (not proved of the implementation): a compaction is applied to the tree i
 touching ranges, inside the compaction's key range, with fresh ids, hold only input versions and
 are "newer above" among themselves (C03's subject); an ingested file is well-formed, has a fresh
 id, a newest timestamp above those of level 0 and versions newer than the tree's for their keys
-(the sequence-number discipline of C06).  Memtables, rollover and flush are outside this relation.
+(the sequence-number discipline of C06).  Memtables, rollover and flush are outside THIS relation;
+the block `StoreHistTree` at the end composes it with the store's history.
 History level (section `History` below, model `Blue.StoreHist`, proofs `Blue.Proofs.StoreHistRefine`): a
 sequential store over the SAME `KState` / `kvsLoad`, with `seq_no`, `visible_seq_no` and a payload
 map `(key, timestamp) ↦ value | tombstone`, and the operations `write batch` (put/del/batch; a batch
@@ -93,8 +95,22 @@ a dropping compaction is outside `history_refines`; I2 alone is `step_compaction
 outputs "newer above" among themselves (`pieces_newer` for pieces of one sorted run); (5)
 `hkept`/`hdis`/`hplace`: the successor's tree components are the kept components of `pre` with
 the outputs below them, possibly left of kept files they share no key with — the tie to
-`apply_compaction_inner` is a HYPOTHESIS, not proved; (6) `hl0`: no file is added to level 0;
-(7) `hI1`: I1 of the successor — a HYPOTHESIS (outputs inserted in key order), not proved here.
+`apply_compaction_inner` is a HYPOTHESIS of THIS section; (6) `hl0`: no file is added to level 0;
+(7) `hI1`: I1 of the successor — a HYPOTHESIS of this section (outputs inserted in key order).
+
+The two relations ARE composed (block `StoreHistTree` at the end, proofs `Blue.Proofs.StoreHistTree`):
+one state (memtables, counters, payloads, a `Blue.NextCompaction.Tree`; the dumped-state record is
+`toKState mem imm tree`), operations `write | rollover | flush id size | compactSel n o og outs |
+moveSel n o og` where a compaction step IS `applyCompaction` / `applyTrivialMove` of what
+`nextCompaction` answers on the current tree and a flush IS `ingest`.  `compactionOk_of_apply`
+discharges (1), (2), (5), (6), (7) from `apply_components`, `nextCompaction_chosen`,
+`apply_preserves_inv` and the bridge `treeComps_toKState`; `store_history_refines` /
+`store_history_reads_last_write` / `store_history_states_pass_invB` are `history_refines` etc. for
+that relation, with BOTH invariants (`Blue.StoreHist.Inv` and the selector's `Inv`, ids distinct)
+in every reached state.  Left as hypotheses of a history there: the id of a flushed table is fresh;
+the outputs of a merge meet `OutsOk`, hold exactly the inputs' versions — (3), no GC drop — and are
+"newer above" among themselves — (4).  A compaction is applied to the tree it was chosen on (the
+step is atomic: no flush between choice and application).
 
 What is NOT modelled (see `partial`/`assumptions` of the claim): reopen / `recover`, the
 verifier/trash clean-ups, external ingest, failing writes, concurrency (operations are completed
@@ -747,6 +763,188 @@ example : invB (run init ops).st = true := Blue.Props.C01.history_states_pass_in
 end Hist
 end History
 
+-- BEGIN StoreHistTree
+/-! ## ONE step relation: the store's history over the tree `apply_compaction_inner` builds
+
+`Blue.StoreHistTree` (Proofs/StoreHistTree.lean) composes the two developments above.  The state
+`TState` holds the memtables, the counters, the payload map and a `Blue.NextCompaction.Tree`; the
+dumped-state record the read model runs on is `toKState mem imm tree`.  Operations: `write`,
+`rollover`, `flush id size` (= `Version::ingest` of the table holding the immutable memtable's
+versions), `compactSel n o og outs` (= `applyCompaction tree c outs` for `c` the answer of
+`nextCompaction n o tree og` on the CURRENT tree; nothing happens when the selector answers
+nothing), `moveSel n o og` (= `applyTrivialMove` when the answer has exactly one input).  No step
+carries a hypothesis about WHERE the outputs go: `compactionOk_of_apply` proves the placement
+obligations of `CompactionOk` (`hsplit`, `hclosed`, `hkept`, `hdis`, `hplace`, `hl0`, `hI1`) from
+`apply_components`, `nextCompaction_chosen`, `apply_preserves_inv` and the bridge
+`treeComps_toKState`.  What `TValid` still asks: the id of a flushed table is fresh in the tree; the
+outputs of a merge meet `OutsOk` (well-formed, sorted with at most touching ranges, inside the key
+range, fresh ids), hold EXACTLY the inputs' versions (no GC drop) and are "newer above" among
+themselves — C03/C05's subject.  A moving compaction owes nothing. -/
+section StoreHistTree
+open Blue.NextCompaction Blue.StoreHist Blue.StoreHistTree
+
+/-- **the representation gap**: the tree part of the search order of the store state holding `t`
+    (level 0 in `l0Order`, then `levels`) is `treeComps t` (level 0 in `l0Search`, then levels 1 …) -/
+theorem treeComps_toKState (mem : List (Ver Nat)) (imm : Option (List (Ver Nat))) (t : Tree) :
+    Blue.StoreHist.treeComps (toKState mem imm t) = Blue.NextCompaction.treeComps t :=
+  Blue.StoreHistTree.treeComps_toKState mem imm t
+
+/-- **the key lemma**: the successor `apply_compaction_inner` builds from an answer of the selector,
+    under the same memtables, IS a compaction step of the history model — the placement, "level 0
+    gains nothing" and I1 of the successor are proved, the hypotheses left concern the outputs only -/
+theorem compactionOk_of_apply (n : Num) (o : Opts) (og : List Core) (mem : List (Ver Nat)) (imm : Option (List (Ver Nat)))
+    {t : Tree} {c : Core} {outs : List File} (hinv : Blue.NextCompaction.Inv t)
+    (hsel : nextCompaction n o t og = some c) (ho : OutsOk t c outs)
+    (hsub : ∀ o ∈ outs, ∀ e ∈ o.vers, ∃ i f, f ∈ level t i ∧ f.id ∈ c.inputs ∧ e ∈ f.vers)
+    (hsup : ∀ i f, f ∈ level t i → f.id ∈ c.inputs → ∀ e ∈ f.vers, ∃ o ∈ outs, e ∈ o.vers)
+    (hnew : NewerAbove (comps outs)) :
+    CompactionOk (toKState mem imm t) (toKState mem imm (applyCompaction t c outs)) :=
+  Blue.StoreHistTree.compactionOk_of_apply n o og mem imm hinv hsel ho hsub hsup hnew
+
+/-- … and for a moving compaction nothing is left to assume -/
+theorem compactionOk_of_move (n : Num) (o : Opts) (og : List Core) (mem : List (Ver Nat)) (imm : Option (List (Ver Nat)))
+    {t : Tree} {c : Core} {l : Nat} {f : File} (hinv : Blue.NextCompaction.Inv t)
+    (hsel : nextCompaction n o t og = some c) (hf : f ∈ level t l) (hone : c.inputs = [f.id]) :
+    CompactionOk (toKState mem imm t) (toKState mem imm (applyTrivialMove t c f)) :=
+  Blue.StoreHistTree.compactionOk_of_move n o og mem imm hinv hsel hf hone
+
+/-- **store_history_refines**: after ANY list of writes, rollovers, flushes, selector-chosen
+    compactions and moving compactions from the empty store (a version with `k + 1` empty levels),
+    `kvsLoad` on `toKState mem imm tree` at any read timestamp from the published sequence number
+    on returns the `(key, timestamp)` of the last accepted write naming the key (nothing if there
+    was none), the payload map holds that write's payload, and BOTH invariants hold: that of the
+    history model (I1, I2 over memtables and tree, counters, level-0 metadata) and the tree
+    invariant the selector relies on (files well-formed, I1, ids distinct) -/
+theorem store_history_refines (k : Nat) (ops : List TOp) (hv : TValid (tinit k) ops) (key t : Nat)
+    (ht : (trun (tinit k) ops).vis ≤ t) :
+    kvsLoad (toKState (trun (tinit k) ops).mem (trun (tinit k) ops).imm (trun (tinit k) ops).tree) key t
+        = (tspec k ops key).map (fun e => (key, e.1))
+    ∧ (∀ ts p, tspec k ops key = some (ts, p) → (trun (tinit k) ops).pay key ts = some p)
+    ∧ TInv (trun (tinit k) ops) :=
+  Blue.StoreHistTree.store_history_refines k ops hv key t ht
+
+/-- the answer of `load`, as payload, is the payload of the last accepted write of the history
+    (`lastWrite` of `Blue.StoreHist`: a function of the operation list alone) -/
+theorem store_history_reads_last_write (k : Nat) (ops : List TOp) (hv : TValid (tinit k) ops) (key : Nat) :
+    Blue.StoreHist.read (trun (tinit k) ops).toH key = lastWrite (ops.map toOp) key :=
+  Blue.StoreHistTree.store_history_reads_last_write k ops hv key
+
+/-- every reached state passes the check `Blue.Kvs.invB` evaluated on the dumps, and its tree
+    satisfies the invariant the selector theorems assume -/
+theorem store_history_states_pass_invB (k : Nat) (ops : List TOp) (hv : TValid (tinit k) ops) :
+    invB (toKState (trun (tinit k) ops).mem (trun (tinit k) ops).imm (trun (tinit k) ops).tree) = true
+    ∧ Blue.NextCompaction.Inv (trun (tinit k) ops).tree :=
+  Blue.StoreHistTree.store_history_invB k ops hv
+
+/-! ### non-vacuity: thirteen operations over a two-level version — two rollover/flush rounds leave
+    two level-0 tables sharing keys 5 and 7; the selector (real tables, default-like options) answers
+    a MOVE of the older table (id 1) to level 1, then a MERGE of the newer level-0 table (id 2) with
+    it; then a rejected batch, a batch with a delete, a rollover.  Every successor tree is computed
+    by `applyTrivialMove` / `applyCompaction` from the selector's answer. -/
+namespace TreeHist
+open Example
+
+def merged : List (Ver Nat) := [(3, 4), (5, 2), (5, 1), (7, 5), (7, 1)]
+def out : File := mk 3 3 7 200 5 merged
+
+def ops : List TOp :=
+  [.write [(5, some 50), (7, some 70)], .write [(5, none)], .rollover, .write [(3, some 30)], .flush 1 100,
+   .write [(7, some 71)], .rollover, .flush 2 100,
+   .moveSel ieee opts [],
+   .compactSel ieee opts [] [out],
+   .write [(9, some 90), (9, none)], .write [(3, none), (8, some 80)], .rollover]
+
+def f1 : File := mk 1 5 7 100 2 [(5, 2), (5, 1), (7, 1)]
+def f2 : File := mk 2 3 7 100 5 [(7, 5), (3, 4)]
+
+theorem tree4 : (trun (tinit 1) (ops.take 4)).tree = [[], []] := by rfl
+theorem tree7 : (trun (tinit 1) (ops.take 7)).tree = [[f1], []] := by rfl
+/-- `ingest` pushed the second table at the END of level 0 (it is searched FIRST: `l0Order`) -/
+theorem tree8 : (trun (tinit 1) (ops.take 8)).tree = [[f1, f2], []] := by rfl
+
+/-- the selector moves the OLDER level-0 table: closed, because the newer one stays above it -/
+theorem choice8 : nextCompaction ieee opts [[f1, f2], []] [] = some ⟨0, 1, 5, 7, [1], 100⟩ := by decide +kernel
+
+theorem tree9 : (trun (tinit 1) (ops.take 9)).tree = [[f2], [f1]] := by
+  show (tapply (trun (tinit 1) (ops.take 8)) (.moveSel ieee opts [])).tree = _
+  rw [tapply_move_some _ ieee opts [] (c := ⟨0, 1, 5, 7, [1], 100⟩) (f := f1) (by rw [tree8]; exact choice8)
+    (by rw [tree8]; rfl)]
+  show applyTrivialMove (trun (tinit 1) (ops.take 8)).tree _ f1 = _
+  rw [tree8]; rfl
+
+theorem choice9 : nextCompaction ieee opts [[f2], [f1]] [] = some ⟨0, 1, 3, 7, [2, 1], 200⟩ := by decide +kernel
+
+theorem tree10 : (trun (tinit 1) (ops.take 10)).tree = [[], [out]] := by
+  show (tapply (trun (tinit 1) (ops.take 9)) (.compactSel ieee opts [] [out])).tree = _
+  rw [tapply_compact_some _ ieee opts [] [out] (c := ⟨0, 1, 3, 7, [2, 1], 200⟩) (by rw [tree9]; exact choice9)]
+  show applyCompaction (trun (tinit 1) (ops.take 9)).tree _ [out] = _
+  rw [tree9]; rfl
+
+theorem ops_valid : TValid (tinit 1) ops := by
+  refine ⟨trivial, trivial, trivial, trivial, ?_, trivial, trivial, ?_, trivial, ?_, trivial, trivial, trivial, trivial⟩
+  · intro _ _ _ l g hg
+    have hg' : g ∈ level (trun (tinit 1) (ops.take 4)).tree l := hg
+    have := mem_flatten_level.mpr ⟨l, hg'⟩
+    rw [tree4] at this
+    cases this
+  · intro _ _ _ l g hg
+    have hg' : g ∈ level (trun (tinit 1) (ops.take 7)).tree l := hg
+    have := mem_flatten_level.mpr ⟨l, hg'⟩
+    rw [tree7] at this
+    simp only [List.flatten_cons, List.flatten_nil, List.append_nil, List.mem_singleton] at this
+    rw [this]; decide
+  · show TOpOk (trun (tinit 1) (ops.take 9)) (.compactSel ieee opts [] [out])
+    intro c hc
+    have hc' : nextCompaction ieee opts (trun (tinit 1) (ops.take 9)).tree [] = some c := hc
+    rw [tree9, choice9] at hc'
+    cases hc'
+    show OutsOk (trun (tinit 1) (ops.take 9)).tree _ _ ∧ _
+    rw [tree9]
+    exact ⟨outsOk_of_flatten (by decide) (by decide) (by decide) (by decide) (by decide),
+      sub_of_flatten (by decide), sup_of_flatten (by decide), by decide⟩
+
+theorem final_state : (trun (tinit 1) ops).tree = [[], [out]]
+    ∧ (trun (tinit 1) ops).mem = [] ∧ (trun (tinit 1) ops).imm = some [(3, 7), (8, 7)]
+    ∧ (trun (tinit 1) ops).seq = 8 ∧ (trun (tinit 1) ops).vis = 7 := by
+  have e : trun (tinit 1) ops = trun (trun (tinit 1) (ops.take 10)) (ops.drop 10) := by
+    rw [trun, trun, trun, ← List.foldl_append, List.take_append_drop]
+  have ht : (trun (tinit 1) ops).tree = (trun (tinit 1) (ops.take 10)).tree := by rw [e]; rfl
+  refine ⟨by rw [ht, tree10], ?_, ?_, ?_, ?_⟩ <;> rw [e] <;> rfl
+
+theorem last_writes : lastWrite (ops.map toOp) 5 = some none ∧ lastWrite (ops.map toOp) 7 = some (some 71)
+    ∧ lastWrite (ops.map toOp) 3 = some none ∧ lastWrite (ops.map toOp) 8 = some (some 80)
+    ∧ lastWrite (ops.map toOp) 9 = none := by decide
+
+/-- the theorem instantiated: key 5 ends deleted, 7 overwritten, 9 only ever named by the rejected
+    batch -/
+example : Blue.StoreHist.read (trun (tinit 1) ops).toH 5 = some none
+    ∧ Blue.StoreHist.read (trun (tinit 1) ops).toH 7 = some (some 71)
+    ∧ Blue.StoreHist.read (trun (tinit 1) ops).toH 9 = none := by
+  simp only [Blue.Props.C01.store_history_reads_last_write 1 ops ops_valid]
+  exact ⟨last_writes.1, last_writes.2.1, last_writes.2.2.2.2⟩
+
+/-- … and the store side by evaluation of `kvsLoad` on the final state: keys 5 and 7 are found in
+    the merged table at level 1, key 3 in the immutable memtable -/
+example : kvsLoad (toKState [] (some [(3, 7), (8, 7)]) [[], [out]]) 5 7 = some (5, 2)
+    ∧ kvsLoad (toKState [] (some [(3, 7), (8, 7)]) [[], [out]]) 7 7 = some (7, 5)
+    ∧ kvsLoad (toKState [] (some [(3, 7), (8, 7)]) [[], [out]]) 3 7 = some (3, 7)
+    ∧ kvsLoad (toKState [] (some [(3, 7), (8, 7)]) [[], [out]]) 9 7 = none := by
+  refine ⟨by decide +kernel, by decide +kernel, by decide +kernel, by decide +kernel⟩
+
+example : Blue.NextCompaction.Inv (trun (tinit 1) ops).tree :=
+  (Blue.Props.C01.store_history_states_pass_invB 1 ops ops_valid).2
+
+/-- `compactionOk_of_apply` on the larger tree `t2` of `ApplyExample` (outputs inside the output
+    level, kept files on both sides), under a memtable and an immutable memtable -/
+example : CompactionOk (toKState [(5, 40)] (some [(9, 39)]) t2)
+    (toKState [(5, 40)] (some [(9, 39)]) (applyCompaction t2 c2 [ApplyExample.outA, ApplyExample.outB])) :=
+  Blue.Props.C01.compactionOk_of_apply ieee o2 [] _ _ t2_inv t2_choice ApplyExample.outs_ok ApplyExample.outs_sub
+    (sup_of_flatten (by decide)) (by decide)
+
+end TreeHist
+end StoreHistTree
+-- END StoreHistTree
+
 end Blue.Props.C01
 
 #print axioms Blue.Props.C01.read_returns_latest
@@ -806,3 +1004,9 @@ end Blue.Props.C01
 #print axioms Blue.Props.C01.tree_step_preserves
 #print axioms Blue.Props.C01.tree_invariant_inductive
 #print axioms Blue.Props.C01.ApplyExample.successor
+#print axioms Blue.Props.C01.treeComps_toKState
+#print axioms Blue.Props.C01.compactionOk_of_apply
+#print axioms Blue.Props.C01.compactionOk_of_move
+#print axioms Blue.Props.C01.store_history_refines
+#print axioms Blue.Props.C01.store_history_reads_last_write
+#print axioms Blue.Props.C01.store_history_states_pass_invB
